@@ -59,6 +59,7 @@ type CheckSpec struct {
 	StubPkgs    []string          `json:"stub_pkgs"`
 	Models      map[string]string `json:"models"`
 	Generated   map[string]string `json:"generated"` // virtual path -> generator name
+	SkipInit    []string          `json:"skip_init"`  // packages whose initialiser is not run (globals stay zero)
 }
 
 type Engine2 struct{}
@@ -318,6 +319,10 @@ func cmdCheck(args []string) int {
 		eng.cfg.Crosscheck = true
 	}
 	eng.stubPkgs = append([]string{"go.uber.org/zap", "go.uber.org/zap/zapcore"}, cs.StubPkgs...)
+	eng.skipInitPkgs = map[string]bool{}
+	for _, p := range cs.SkipInit {
+		eng.skipInitPkgs[p] = true
+	}
 	eng.models = map[string]*ssa.Function{}
 	for callee, mname := range cs.Models {
 		var mf *ssa.Function
@@ -440,8 +445,11 @@ func cmdCheck(args []string) int {
 				fmt.Printf("harness %-28s params=%v order=%q paths=%d ends=%v decisions=%d asserts=%d/%d viol=%d known=%v unknown=%d errors=%d %.1fs\n",
 					h.Func, h.Params, order, r.Paths, r.PathEnds, r.Decisions, r.Discharged, r.Assertions, r.Violations, r.KnownSeen, len(r.Unknowns), len(r.Errors), r.WallS)
 			}
-			for _, e := range r.Errors {
+			for i, e := range r.Errors {
 				fmt.Printf("  ERROR %s: %s\n", h.Func, firstLine(e))
+				if i == 0 && strings.HasPrefix(e, "internal") {
+					fmt.Println(e)
+				}
 			}
 			for _, u := range r.Unknowns {
 				fmt.Printf("  UNKNOWN %s: %s\n", h.Func, firstLine(u))
